@@ -105,9 +105,107 @@ def locate(rep, byte):
     return 'unknown'
 
 
+def vd_field_cases(ctx):
+    """images created with non-default volume descriptor fields (set size / sequence number that differ, identifiers,
+    file identifiers, expiration date, application use) in every descriptor flavour: write(open(img)) == img, and the
+    fields read from the bytes are the ones given"""
+    import struct
+    import pycdlib
+    rng = ctx.rng
+    tmpdir = tempfile.mkdtemp(prefix='verif-c05v-')
+    try:
+        combos = [(1, 1), (2, 1), (2, 2), (3, 2), (5, 3), (65535, 1), (65535, 65535), (rng.randint(2, 400), 1)]
+        for i, (set_size, seq) in enumerate(combos):
+            for flavour in ({}, {'joliet': 3}, {'interchange_level': 4}, {'rock_ridge': '1.09', 'joliet': 2}, {'udf': '2.60'}, {'xa': True, 'joliet': 1}):
+                kw = dict(flavour, set_size=set_size, seqnum=seq, sys_ident='SYS%d' % i, vol_ident='VOL_%d' % i, vol_set_ident='SET %d' % i,
+                          pub_ident_str='pub %d' % i, preparer_ident_str='prep %d' % i, app_ident_str='app %d' % i,
+                          copyright_file='COPY.;1', abstract_file='ABST.;1', bibli_file='BIBL.;1',
+                          vol_expire_date=rng.choice([None, 1700000000.0, 4102444799.0]), app_use='use %d' % i)
+                rp = {'kind': 'vd-fields', 'new': {k: v for k, v in kw.items()}}
+                path = os.path.join(tmpdir, 'v.iso')
+                with isoapi.frozen_time():
+                    iso = pycdlib.PyCdlib()
+                    try:
+                        iso.new(**kw)
+                        iso.add_fp(io.BytesIO(b'c'), 1, '/COPY.;1', **({'rr_name': 'copy'} if kw.get('rock_ridge') else {}))
+                        iso.write(path)
+                    except Exception as e:  # noqa
+                        if isoapi.exc_class(e) != 'invalidInput':
+                            ctx.violation('C05.vd-fields/build-raises', 'new(%s) + write raised %r' % (kw, e), rp)
+                        continue
+                    finally:
+                        iso.close()
+                orig = open(path, 'rb').read()
+                ctx.count(key=('vd-fields', set_size, seq, tuple(sorted(flavour))), nontrivial=set_size != seq, kind='vd-fields')
+                # every PVD / SVD: set size at 120, sequence number at 124 (both-endian 16 bit)
+                sec = 16
+                while orig[sec * 2048 + 1: sec * 2048 + 6] == b'CD001' and orig[sec * 2048] != 255:
+                    if orig[sec * 2048] in (1, 2):
+                        ss = struct.unpack_from('<H', orig, sec * 2048 + 120)[0]
+                        sq = struct.unpack_from('<H', orig, sec * 2048 + 124)[0]
+                        if (ss, sq) != (set_size, seq):
+                            ctx.violation('C05.vd-fields/set-seq-recorded', 'descriptor at sector %d records set size %d / sequence %d, given %d / %d' % (sec, ss, sq, set_size, seq), rp)
+                    sec += 1
+                try:
+                    with isoapi.frozen_time():
+                        again = remaster(path)
+                except Exception as e:  # noqa
+                    ctx.violation('C05.vd-fields/remaster-fails', 're-mastering fails: %r' % e, rp)
+                    continue
+                d = first_diff(mask(orig), mask(again))
+                if d >= 0:
+                    ctx.violation('C05.vd-fields/remaster-differs', 'write(open(img)) differs from img at byte %d (sector %d, offset %d) for new(%s)' % (
+                        d, d // 2048, d % 2048, {k: kw[k] for k in ('set_size', 'seqnum')}), rp)
+    finally:
+        shutil.rmtree(tmpdir, ignore_errors=True)
+
+
+def stepping_clock_case(ctx):
+    """the clock advances during the write (0.6 s per reading instead of standing still): an image with copies of the PVD
+    must still be one that opens, and re-mastering it under a standing clock reproduces it"""
+    import time
+    import pycdlib
+    rp = {'kind': 'stepping-clock'}
+    for flavour in ({}, {'joliet': 3}, {'rock_ridge': '1.09'}):
+        with isoapi.frozen_time():
+            iso = pycdlib.PyCdlib()
+            iso.new(**flavour)
+            iso.duplicate_pvd()
+            iso.duplicate_pvd()
+            iso.add_fp(io.BytesIO(b'abc'), 3, '/A.;1', **({'rr_name': 'a'} if flavour.get('rock_ridge') else {}))
+            base = time.time()
+            ticks = [0]
+
+            def stepping():
+                ticks[0] += 1
+                return base + 0.6 * ticks[0]
+            time.time = stepping
+            out = io.BytesIO()
+            try:
+                iso.write_fp(out)
+            finally:
+                time.time = lambda: base
+            iso.close()
+        ctx.count(key=('stepping-clock', tuple(sorted(flavour))), nontrivial=True, kind='stepping-clock')
+        g = pycdlib.PyCdlib()
+        try:
+            g.open_fp(io.BytesIO(out.getvalue()))
+            g.close()
+        except Exception as e:  # noqa
+            ctx.violation('C05.pvd-copies/modification-date-race', 'an image with three PVD copies written while the clock advances cannot be opened: %r' % e, rp)
+
+
 def run(ctx):
+    vd_field_cases(ctx)
+    stepping_clock_case(ctx)
     c01.run(ctx, focus='C05', post=post, n_quick=200, n_thorough=5000, force={'duppvd': True})
 
 
 def replay(ctx, obj):
+    if obj.get('replay', obj).get('kind') == 'stepping-clock':
+        stepping_clock_case(ctx)
+        return [v['signature'] for v in ctx.violations]
+    if obj.get('replay', obj).get('kind') == 'vd-fields':
+        vd_field_cases(ctx)
+        return [v['signature'] for v in ctx.violations]
     return c01.replay(ctx, obj, focus='C05', post=post)
